@@ -3,49 +3,99 @@
 (* Property C19b: a parsed Program is immutable and shareable.             *)
 (*                                                                         *)
 (* One shared `program` (what parser.ParseProgram returns: compiled code,  *)
-(* constant table, compiled regular expressions, function table) and       *)
-(* NProc interpreters, each with PRIVATE state interp[i] (what interp.New  *)
-(* allocates: globals, value stack, output buffer).  Every action executes *)
-(* one instruction of one interpreter and records in `acc` the set of      *)
-(* locations it read and wrote.  A location is                             *)
+(* constant table, compiled regular expressions -- objects with a state of *)
+(* their own: source and leftmost-longest flag --, function table) and     *)
+(* NProc processes.  A process executes the program MaxRuns times, one     *)
+(* execution after the other; EVERY execution has an interpreter of its    *)
+(* own, interp[i] (what interp.New / interp.ExecProgram allocate: globals, *)
+(* value stack, output buffer, the cache of regular expressions compiled   *)
+(* at run time, the random generator with its seed).  The execution        *)
+(* interfaces of the real package (ExecProgram, New + Execute, New +       *)
+(* ExecuteContext: ApiOf) are one and the same pair of actions here:       *)
+(* New(i) allocates the private state, Step(i) executes one instruction.   *)
+(* Every action records in `acc` the set of locations it read and wrote.   *)
+(* A location is                                                           *)
 (*      <<"prog", table, index>>   or   <<"interp", i, part, index>>.      *)
 (*                                                                         *)
 (* Instructions (the program is straight-line; the rendering as AWK is     *)
 (* given next to each):                                                    *)
 (*   [op |-> "set",   g, k]   g = consts[k]            a = 7               *)
 (*   [op |-> "add",   g, k]   g = g + consts[k]        a = a + 1           *)
-(*   [op |-> "match", g, k]   g = (g ~ regexes[k])     a = (a ~ /^1/)      *)
+(*   [op |-> "match", g, k]   g = ($0 ~ regexes[k])    $0 = a; a = (/^1/ ? 1 : 0)   the COMPILED literal    *)
+(*   [op |-> "rlen",  g, k]   g = RLENGTH of match(g, the same source)     match(a, /^1/); a = RLENGTH     *)
+(*                            -- compiled at run time into the interpreter's own cache                    *)
 (*   [op |-> "call",  g, k]   g = dbl(g)  (k unused)   a = dbl(a)          *)
 (*   [op |-> "print", g, k]   out = out ++ <<g>>       print a             *)
+(*   [op |-> "rand",  g, k]   out = out ++ <<next random number>>          print int(rand() * 1000000)     *)
+(*   [op |-> "srand", g, k]   out = out ++ <<previous seed>>; seed = consts[k]     print srand(7)          *)
 (* Every program ends with  print a; print b  (appended by Code).          *)
+(*                                                                         *)
+(* Random numbers are not computed: the n-th number after seeding with s   *)
+(* is the token RandTok(s, n), the seed an execution starts with the token *)
+(* Seed0Tok.  Equal tokens stand for equal numbers -- in one execution and *)
+(* across all executions of the program --, different tokens for numbers   *)
+(* about which nothing is said.                                            *)
 (*                                                                         *)
 (* Properties (checked by MC_SharedProgram over all interleavings):        *)
 (*   Immutable      [][program' = program]_vars                            *)
 (*   NoSharedWrite  no step writes a location outside its own interp[i]    *)
 (*   NoForeignRead  no step reads another interpreter's state              *)
-(*   Equivalent     a finished interpreter holds the result of Solo        *)
-(* With SharedCache = TRUE the "match" instruction memoises its last       *)
-(* result inside the program (a mutable cache in a shared object, the      *)
-(* typical way such a property gets broken); TLC then refutes all four,    *)
-(* which shows that the properties are not vacuous.                        *)
+(*   Equivalent     a finished execution holds the result of Solo          *)
+(* Two slips, each the typical way such a property gets broken, show that  *)
+(* the properties are not vacuous (TLC refutes them):                      *)
+(*   SharedCache = TRUE  "match" memoises its last result inside the       *)
+(*        program, and "rlen" reuses the program's compiled literal of the *)
+(*        same source, switching it to leftmost-longest when it needs it   *)
+(*        (the compiler then leaves the flag off): writes into the shared  *)
+(*        program;                                                         *)
+(*   ReuseInterp = TRUE  New(i) takes over the interpreter left behind by  *)
+(*        the execution that finished last (a pool of one) and restores    *)
+(*        everything but the random generator: the second execution does   *)
+(*        not produce what a single execution produces.                    *)
 (***************************************************************************)
 EXTENDS Integers, Sequences, FiniteSets, TLC
 
-CONSTANTS NProc, SharedCache
+CONSTANTS NProc, SharedCache, ReuseInterp, MaxRuns
 
 Consts  == <<0, 1, 7, 10>>            \* program.Compiled.Nums
-NumRegex == 2                         \* program.Compiled.Regexes: /^1/ and /0$/
-\* the two regular expressions on the decimal spelling of 0..99
-Matches(r, n) == IF r = 1 THEN (n = 1 \/ (n >= 10 /\ n <= 19)) ELSE n % 10 = 0
+NumRegex == 3                         \* program.Compiled.Regexes: /^1/, /0$/ and /1|10/
+
+\* decimal digits of n >= 0, most significant first
+RECURSIVE DigitsOf(_)
+DigitsOf(n) == IF n < 10 THEN <<n>> ELSE Append(DigitsOf(n \div 10), n % 10)
+Abs(n) == IF n < 0 THEN 0 - n ELSE n
+\* the three regular expressions on the decimal spelling of an integer ("-" before the digits of a negative one)
+Matches(r, n) ==
+  CASE r = 1 -> n >= 0 /\ Head(DigitsOf(n)) = 1                              \* /^1/
+    [] r = 2 -> Abs(n) % 10 = 0                                              \* /0$/
+    [] r = 3 -> \E j \in 1..Len(DigitsOf(Abs(n))) : DigitsOf(Abs(n))[j] = 1  \* /1|10/
+\* RLENGTH after match(n, r): the length of the LEFTMOST-LONGEST match, -1 without a match
+MatchLen(r, n) ==
+  IF ~Matches(r, n) THEN 0 - 1
+  ELSE IF r # 3 THEN 1
+  ELSE LET d == DigitsOf(Abs(n))
+           j == CHOOSE q \in 1..Len(d) : d[q] = 1 /\ \A p \in 1..(q - 1) : d[p] # 1
+       IN IF j < Len(d) /\ d[j + 1] = 0 THEN 2 ELSE 1
+
+\* tokens for random numbers and for the seed an execution starts with; sc = 0: that seed, sc = k: consts[k]
+RandTok(sc, n) == 10000 + 100 * sc + n
+Seed0Tok == 20000
+IsToken(v) == v >= 10000
+
+\* the execution interface process i uses (the model does not distinguish them)
+ApiOf(i) == CASE i % 3 = 1 -> "new-execute" [] i % 3 = 2 -> "execprogram" [] OTHER -> "new-executecontext"
 
 Tail2 == <<[op |-> "print", g |-> 1, k |-> 0], [op |-> "print", g |-> 2, k |-> 0]>>
 Code(body) == body \o Tail2
 
-MkProgram(body) == [code |-> Code(body), consts |-> Consts, nregex |-> NumRegex,
+\* the parser compiles every literal as leftmost-longest (under the SharedCache slip it leaves that to the interpreter)
+MkProgram(body) == [code |-> Code(body), consts |-> Consts,
+                    regexes |-> [r \in 1..NumRegex |-> [src |-> r, longest |-> ~SharedCache]],
                     cache |-> [r \in 1..NumRegex |-> [valid |-> FALSE, arg |-> 0, res |-> 0]]]
 
-NewInterp == [status |-> "run", pc |-> 1, g |-> <<0, 0>>, out |-> <<>>]
-NoInterp  == [status |-> "none", pc |-> 0, g |-> <<0, 0>>, out |-> <<>>]
+\* rc: sources compiled at run time (private cache); sc, nr: seed code and numbers drawn since seeding
+NewInterp == [status |-> "run", pc |-> 1, g |-> <<0, 0>>, out |-> <<>>, rc |-> {}, sc |-> 0, nr |-> 0]
+NoInterp  == [status |-> "none", pc |-> 0, g |-> <<0, 0>>, out |-> <<>>, rc |-> {}, sc |-> 0, nr |-> 0]
 
 PLoc(table, idx)   == <<"prog", table, idx>>
 ILoc(i, part, idx) == <<"interp", i, part, idx>>
@@ -69,6 +119,25 @@ Exec1(pr, it, i) ==
        [] ins.op = "print" ->
             [it |-> nxt([it EXCEPT !.out = Append(@, gv)]), pr |-> pr,
              reads |-> rd0 \cup {ILoc(i, "g", ins.g)}, writes |-> {ILoc(i, "out", 0), ILoc(i, "pc", 0)}]
+       [] ins.op = "rand" ->
+            [it |-> nxt([it EXCEPT !.out = Append(@, RandTok(it.sc, it.nr + 1)), !.nr = @ + 1]), pr |-> pr,
+             reads |-> rd0 \cup {ILoc(i, "rng", 0)}, writes |-> {ILoc(i, "rng", 0), ILoc(i, "out", 0), ILoc(i, "pc", 0)}]
+       [] ins.op = "srand" ->
+            [it |-> nxt([it EXCEPT !.out = Append(@, IF it.sc = 0 THEN Seed0Tok ELSE pr.consts[it.sc]), !.sc = ins.k, !.nr = 0]),
+             pr |-> pr,
+             reads |-> rd0 \cup {PLoc("consts", ins.k), ILoc(i, "rng", 0)},
+             writes |-> {ILoc(i, "rng", 0), ILoc(i, "out", 0), ILoc(i, "pc", 0)}]
+       [] ins.op = "rlen" ->
+            IF SharedCache
+            THEN \* the slip: take the program's literal of the same source and make it leftmost-longest
+                 [it |-> nxt([it EXCEPT !.g[ins.g] = MatchLen(ins.k, gv)]),
+                  pr |-> [pr EXCEPT !.regexes[ins.k].longest = TRUE],
+                  reads |-> rd0 \cup {PLoc("regexes", ins.k), ILoc(i, "g", ins.g)},
+                  writes |-> {ILoc(i, "g", ins.g), ILoc(i, "pc", 0), PLoc("regexes", ins.k)}]
+            ELSE \* compile the source (a string constant of the program) into the interpreter's own cache
+                 [it |-> nxt([it EXCEPT !.g[ins.g] = MatchLen(ins.k, gv), !.rc = @ \cup {ins.k}]), pr |-> pr,
+                  reads |-> rd0 \cup {PLoc("strs", ins.k), ILoc(i, "rc", ins.k), ILoc(i, "g", ins.g)},
+                  writes |-> {ILoc(i, "rc", ins.k), ILoc(i, "g", ins.g), ILoc(i, "pc", 0)}]
        [] ins.op = "match" ->
             IF SharedCache
             THEN \* as a broken implementation would do it: look the argument up in a cache kept in the program
@@ -86,6 +155,11 @@ Exec1(pr, it, i) ==
 RECURSIVE SoloRun(_, _)
 SoloRun(pr, it) == IF it.status = "done" THEN it ELSE LET e == Exec1(pr, it, 0) IN SoloRun(e.pr, e.it)
 Solo(body) == SoloRun(MkProgram(body), NewInterp)
+
+\* the interpreter an execution starts with: a new one -- or, under the ReuseInterp slip, the one the last finished
+\* execution left in `spare`, with everything restored but the random generator
+StartInterp(spare) ==
+  IF ReuseInterp /\ spare.status = "done" THEN [NewInterp EXCEPT !.sc = spare.sc, !.nr = spare.nr] ELSE NewInterp
 
 \* ---- the properties, as predicates over (program, interp, acc) ----
 OwnLoc(loc, i)  == loc[1] = "interp" /\ loc[2] = i
